@@ -197,6 +197,25 @@ PROPS = {
             "a client never uses a handle it moved into a parent (Sys.clientOk) - true of Rust move semantics",
         ],
     },
+    "C09": {
+        "modules": ["Hannibal.Props.C09"],
+        "theorems": ["Hannibal.C09_holds", "Hannibal.c09_step", "Hannibal.deliver_ok"],
+        "driver": "brk09",
+        "cases": {"quick": {"C09": 2500}, "thorough": {"C09": 50000}},
+        "assumptions": [
+            "atomicity: everything a task does inside one poll is atomic w.r.t. other tasks (single-thread executor)",
+            "Model/Broker.lean: subscribe / unsubscribe / publish enter the broker's FIFO mailbox at one point between "
+            "the operation's begin and return; the broker handles one item at a time; what is on its way to a subscriber "
+            "is taken up in FIFO order - assumed in the theorem, validated by the depth-first search for internal moves "
+            "on real histories (a budget overrun counts as a rejection)",
+            "publication numbers are fresh (wf09, checked on every real trace)",
+            "'exactly once to every definitely-subscribed live subscriber by quiescence' (quiescentOk) and 'the broker "
+            "never keeps a subscriber alive / terminated subscribers neither block nor fail a publish' are judged on "
+            "real quiescent traces: the model must be settled (empty mailbox, nothing in flight) at quiescence and "
+            "every publish of the family returns Ok although subscribers terminate at arbitrary positions",
+            "one broker per topic type; topics are independent (the driver projects per topic)",
+        ],
+    },
     "C10": {
         "modules": ["Hannibal.Props.C10", "Hannibal.Props.C10Current"],
         "theorems": ["Hannibal.C10_holds", "Hannibal.C10_current"],
